@@ -16,6 +16,10 @@ pulse magnitudes == the profile's monthly max, signs, blocks of retained months 
 pulse pattern with noon-centred (abutting) windows, unretained months == one average entry,
 0 < duration <= 48, no pulse for an empty direction, and the duration re-derived from `g_sts` by
 bisection on the interpolated step response (Cullin & Spitler).
+Glue streams (every tier): real GHE objects (GHE.__init__, leap load years with peaks on 31 December)
+before/after simulate/size, and real design searches through all six design classes with explicit
+load_years and with SYSTEM flow — peaks of every month of every load year retained, durations equal to
+those of a HybridLoad built from the public classes for the same exchanger.
 """
 from __future__ import annotations
 
@@ -99,6 +103,141 @@ def expected_block(r, i, prev, lm, rate):
         t = p[2]
     out.append((rate, t, float(lm)))
     return out
+
+
+def check_blocks(ctx, label, load, hour, mt, start, end, years, replay, prefix=""):
+    """Every simulated month's entries against the pattern its record asks for (retained months: average /
+    pulse pattern with noon-centred or abutting windows; other months: one average entry)."""
+    yr = years if len(years) > 1 else years[0]
+    multi = len(years) > 1
+    j = 2
+    for i in range(start, end + 1):
+        prev, lm = H.oracle_month_end(i - 1, yr), H.oracle_month_end(i, yr)
+        blk = []
+        t = hour[j - 1]
+        while j < len(hour):
+            blk.append((load[j], t, hour[j]))
+            t = hour[j]
+            j += 1
+            if t == float(lm) and not (j < len(hour) and hour[j] == float(lm)):
+                break
+        if not blk:
+            ctx.finding(prefix + "month-missing", f"{label}: no entries for month {i}", dict(replay, month=i))
+            return False
+        r = mt[(i - 1) % len(mt)]
+        rate = blk[-1][0]
+        retained = multi or H.ipf(i, start, end)
+        if retained:
+            want = expected_block(r, i, prev, lm, rate)
+            ctx.count(prefix + "retained-block:" + ("same-day" if r["dayc"] == r["dayh"] else "different-days") + f"/{sum(1 for w in want if w[0] != rate or False)}p")
+        else:
+            want = [(rate, float(prev), float(lm))]
+            ctx.count(prefix + "unretained-block")
+        ok = len(blk) == len(want) and all(a[0] == b[0] and H.close(a[1], b[1], 1e-9) and H.close(a[2], b[2], 1e-9) for a, b in zip(blk, want))
+        if not ok:
+            nc = prev + 1 + 24 * r["dayc"] + 12
+            nh = prev + 1 + 24 * r["dayh"] + 12
+            clamped = (r["pcl"] > 0 and r["dcl"] / 2 > nc) or (r["phl"] > 0 and r["dhl"] / 2 > nh)
+            key = "pulse-clamped-not-centred" if clamped and retained else (prefix + "pulse-placement" if retained else prefix + "unretained-month-not-average-only")
+            ctx.finding(key, f"{label}: month {i} emits {blk} but its record asks for {want}", dict(replay, month=i, record=r))
+            return False
+    return True
+
+
+def retention_object(ctx, label, snap, raw, years, start, end, replay, prefix):
+    """C07 on one snapshot of a hybrid load against the input profile `raw` (W) of its load years:
+    every month of every load year keeps its hourly peak (magnitude, day), durations lie in (0, 48],
+    and the sequence carries them as pulses (check_blocks).  Returns True when everything held."""
+    yr = years if len(years) > 1 else years[0]
+    mt = H.month_table(snap["monthly"])
+    n_rec = 12 * len(years)
+    if len(mt) < n_rec:
+        ctx.finding(prefix + "monthly-arrays-short", f"{label}: monthly arrays describe {len(mt)} month(s), the load years {years} have {n_rec}", replay)
+        return False
+    good = True
+    for k in range(n_rec):
+        a, b = H.oracle_month_end(k, yr), H.oracle_month_end(k + 1, yr)
+        seg = raw[a:b]
+        rej = [-x / 1000.0 if x < 0 else 0.0 for x in seg]
+        ext = [x / 1000.0 if x >= 0 else 0.0 for x in seg]
+        r = mt[k]
+        for name, s_, pk, day, dur in (("rejection", rej, r["pcl"], r["dayc"], r["dcl"]), ("extraction", ext, r["phl"], r["dayh"], r["dhl"])):
+            want = max(s_) if s_ else float("nan")
+            if not s_ or pk != want or day != s_.index(want) // 24:
+                ctx.finding(prefix + "peak-not-retained", f"{label}: load-year month {k+1} {name} peak is {pk} kW on day {day}; the input's hourly peak of that month is "
+                            f"{want} kW on day {s_.index(want) // 24 if s_ else None}", dict(replay, month=k + 1))
+                good = False
+            if not (math.isfinite(dur) and 0.0 < dur <= 48.0):
+                ctx.finding("degenerate-duration" if abs(pk - (r["avgcl"] if name == "rejection" else r["avghl"])) <= 1e-9 * max(pk, 1e-300) else prefix + "duration-bounds",
+                            f"{label}: load-year month {k+1} {name} duration {dur} h outside (0, 48]", dict(replay, month=k + 1))
+                good = False
+        if not good:
+            return False
+    if all(math.isfinite(x) for x in snap["load"] + snap["hour"]):
+        good = check_blocks(ctx, label, snap["load"], snap["hour"], mt[:n_rec], start, end, years, replay, prefix)
+    return good
+
+
+def glue_streams(ctx, phys, quick):
+    """(1) real GHE objects built through GHE.__init__ (start months 1/2/4/7/12, leap load years, distinct
+    monthly peaks incl. peaks ON 31 December and on the last day of February), inspected after construction
+    and after simulate/size; (2) real design searches through every design class with explicit load_years
+    and with SYSTEM flow: the returned GHE's hybrid load keeps the peaks of every month of every load year
+    and carries the Cullin-Spitler durations of THAT exchanger (compared with a HybridLoad built from the
+    public classes for the same per-borehole flow)."""
+    jobs = H.ghe_history_jobs(ctx.rng, 8 if quick else 40, phys, "peaky")
+    outs = core.pool_map(H.run_ghe_history, jobs)
+    for a, o in zip(jobs, outs):
+        label0 = f"GHE(start_month={a['start']}, end_month={a['end']}, load_years={a['years']}, {a['hours']}-hour profile)"
+        replay = {"builder": "hybridlib.run_ghe_history", "args": {k: v for k, v in a.items() if k != "phys"}, "phys": a["phys"]}
+        ctx.count(f"ghe-history:start-{a['start']}/years-{a['years'][0]}")
+        if "raise" in o:
+            ctx.case(("ghe-history", a["start"], a["end"], a["years"][0], a["seed"]), False)
+            ctx.finding("ghe-history-raise", f"{label0} raised {o['raise']}", replay)
+            continue
+        raw = H.profile_of(a)
+        for k, (name, snap) in enumerate(o["steps"]):
+            label = f"{label0} after {[n for n, _ in o['steps'][1:k + 1]] or 'construction'}"
+            ctx.case(("ghe-history", a["start"], a["end"], a["years"][0], a["seed"], k), True)
+            if not retention_object(ctx, label, snap, raw, a["years"], a["start"], a["end"], dict(replay, step=k), "ghe-history-"):
+                break
+    jobs = H.design_search_jobs(ctx.rng, 9 if quick else 27, phys, "peaky")
+    outs = core.pool_map(H.run_design_search, jobs)
+    for a, o in zip(jobs, outs):
+        label = (f"{a['design']} design search ({a.get('flow_type', 'BOREHOLE')} flow {a.get('flow', phys['flow'])} L/s, load_years={a['years']}, "
+                 f"{a['months']} months): hybrid load of the returned GHE")
+        replay = {"builder": "hybridlib.run_design_search", "args": {k: v for k, v in a.items() if k != "phys"}, "phys": a["phys"]}
+        ctx.count(f"design-search:{a['design']}/{a.get('flow_type', 'BOREHOLE')}/years-{'+'.join(map(str, a['years']))}")
+        if "raise" in o:
+            ctx.case(("design-search", a["design"], tuple(a["years"]), a["seed"]), False)
+            ctx.finding("design-search-raise", f"{label}: the search raised {o['raise']}", replay)
+            continue
+        ctx.case(("design-search", a["design"], tuple(a["years"]), a.get("flow_type"), a["seed"]), True,
+                 {"design_search": a["design"], "years": a["years"], "boreholes": o["n_boreholes"]} if len(ctx.samples) < 6 else None)
+        snap = o["returned"]
+        raw = H.profile_of(a)
+        if snap["years"] != list(a["years"]):
+            # the consequence for this property, then one finding for the dropped calendar
+            n_rec = 12 * len(a["years"])
+            lost = max(0, n_rec - len(snap["monthly"]))
+            ctx.finding("design-search-load-years-dropped:" + a["design"],
+                        f"{label}: hybrid_load.years = {snap['years']} instead of the requested {a['years']}; the monthly peaks of {lost} load-year month(s) are not retained", replay)
+            continue
+        good = retention_object(ctx, label, snap, raw, a["years"], 1, a["months"], replay, "design-search-")
+        # durations (and hence pulse widths) of THIS exchanger
+        ref = o["reference"]["max_height"]
+        worst = None
+        for m, (x, y) in enumerate(zip(snap["monthly"], ref["monthly"]), 1):
+            for j in (8, 9):
+                if math.isfinite(y[j]) and y[j] > 1e-3 and abs(x[j] - y[j]) > 1e-9 * y[j]:
+                    if worst is None or abs(x[j] - y[j]) / y[j] > worst[0]:
+                        worst = (abs(x[j] - y[j]) / y[j], m, H.MONTHLY_FIELDS[j], x[j], y[j])
+        if worst:
+            ctx.finding("design-search-durations-not-of-this-exchanger",
+                        f"{label} ({o['n_boreholes']} boreholes, {o['flow_per_borehole']:.4f} L/s per borehole): month {worst[1]} {worst[2]} = {worst[3]} h, "
+                        f"a HybridLoad built from the public classes for the same exchanger gives {worst[4]} h ({100 * worst[0]:.2f} % off)", replay)
+        elif good and (snap["hour"] != ref["hour"] or snap["load"] != ref["load"]):
+            ctx.finding("design-search-sequence-not-of-this-exchanger", f"{label}: (load, hour) sequence differs from the one of a HybridLoad built for the same exchanger", replay)
 
 
 def run(ctx: core.Ctx):
@@ -207,34 +346,10 @@ def run(ctx: core.Ctx):
             if degenerate or not all(math.isfinite(x) for x in load + hour):
                 ctx.count("blocks-skipped:degenerate-duration")
                 continue
-            j = 2
-            for i in range(1, e + 1):
-                prev, lm = H.oracle_month_end(i - 1), H.oracle_month_end(i)
-                blk = []
-                t = hour[j - 1]
-                while j < len(hour):
-                    blk.append((load[j], t, hour[j]))
-                    t = hour[j]
-                    j += 1
-                    if t == float(lm) and not (j < len(hour) and hour[j] == float(lm)):
-                        break
-                r = mt[(i - 1) % 12]
-                rate = blk[-1][0]
-                if H.ipf(i, 1, e):
-                    want = expected_block(r, i, prev, lm, rate)
-                    ctx.count("retained-block:" + ("same-day" if r["dayc"] == r["dayh"] else "different-days") + f"/{sum(1 for w in want if w[0] != rate or False)}p")
-                else:
-                    want = [(rate, float(prev), float(lm))]
-                    ctx.count("unretained-block")
-                ok = len(blk) == len(want) and all(a[0] == b[0] and H.close(a[1], b[1], 1e-9) and H.close(a[2], b[2], 1e-9) for a, b in zip(blk, want))
-                if not ok:
-                    nc = prev + 1 + 24 * r["dayc"] + 12
-                    nh = prev + 1 + 24 * r["dayh"] + 12
-                    clamped = (r["pcl"] > 0 and r["dcl"] / 2 > nc) or (r["phl"] > 0 and r["dhl"] / 2 > nh)
-                    key = "pulse-clamped-not-centred" if clamped and H.ipf(i, 1, e) else ("pulse-placement" if H.ipf(i, 1, e) else "unretained-month-not-average-only")
-                    ctx.finding(key, f"{kind} end={e}: month {i} emits {blk} but its record asks for {want}",
-                                dict(base_replay, end=e, month=i, record=r))
-                    break
+            check_blocks(ctx, f"{kind} end={e}", load, hour, mt, 1, e, [H.YEAR], dict(base_replay, end=e))
+
+    # ------------------------------------------------------------------ the glue: real GHE objects and design searches
+    glue_streams(ctx, physs[0], quick)
 
     # ------------------------------------------------------------------ perform_current_month_simulation on arbitrary windows vs the model
     n_w = 200 if quick else 4000
